@@ -147,18 +147,21 @@ class BaseEstimator(object):
             parents_states = [self.state_names[parent] for parent in parents]
             # count how often each state of 'variable' occurred, conditional on parents' states
             if weighted:
-                state_count_data = (
-                    self.data.groupby([variable] + parents, observed=True)["_weight"]
-                    .sum()
-                    .unstack(parents)
-                )
-
+                state_count_data = self.data.groupby(
+                    [variable] + parents, observed=True
+                )["_weight"].sum()
             else:
-                state_count_data = (
-                    self.data.groupby([variable] + parents, observed=True)
-                    .size()
-                    .unstack(parents)
-                )
+                state_count_data = self.data.groupby(
+                    [variable] + parents, observed=True
+                ).size()
+
+            # Unstack the parents under temporary level names: pandas reads integer
+            # variable names as level positions.
+            tmp_names = [f"__level_{i}__" for i in range(len(parents) + 1)]
+            state_count_data.index = state_count_data.index.set_names(tmp_names)
+            state_count_data = state_count_data.unstack(tmp_names[1:])
+            state_count_data.index.name = variable
+            state_count_data.columns.names = parents
 
             if not isinstance(state_count_data.columns, pd.MultiIndex):
                 state_count_data.columns = pd.MultiIndex.from_arrays(
